@@ -18,9 +18,9 @@ Qed.
 
 Lemma scroll_wrap_vs_ge0 : forall fixed allow Hf tbh width height top bottom cy cx nlines st,
   0 <= cy < nlines -> 0 <= vs st ->
-  0 <= vs (scroll_wrap fixed allow Hf tbh width height top bottom cy cx nlines st).
+  0 <= vs (scroll_wrap_gen fixed allow Hf tbh width height top bottom cy cx nlines st).
 Proof.
-  intros fixed allow Hf tbh width height top bottom cy cx nlines st Hcy Hvs. unfold scroll_wrap.
+  intros fixed allow Hf tbh width height top bottom cy cx nlines st Hcy Hvs. unfold scroll_wrap_gen.
   destruct (width <=? 0); [cbn [vs]; lia|].
   destruct (height - top <? Hf cy); [cbn [vs]; lia|].
   cbv zeta.
@@ -47,7 +47,7 @@ Definition step_ok (s : step) : Prop :=
 Definition do_step (st : sstate) (s : step) : sstate :=
   match s with
   | SWrap fixed allow Hf tbh width height top bottom cy cx nlines =>
-      scroll_wrap fixed allow Hf tbh width height top bottom cy cx nlines st
+      scroll_wrap_gen fixed allow Hf tbh width height top bottom cy cx nlines st
   | SNoWrap allow sw line pw width height top bottom lft rgt cy cx nlines =>
       scroll_nowrap allow sw line pw width height top bottom lft rgt cy cx nlines st
   end.
@@ -73,12 +73,13 @@ Qed.
 Definition g_plain (wrap : bool) (tab : list (Z * (Z * Z * str))) : cfg :=
   mkcfg wrap false 0 0 0 0 false [] [] false 0 false [] tab.
 
-(* F1: 'abcde' in a 5x1 wrapping window, cursor at the end *)
+(* F1 (repaired in /repo by commit f4b07a8): 'abcde' in a 5x1 wrapping window,
+   cursor at the end - not visible on the pinned snapshot, visible now *)
 Definition w1_text : str := [97; 98; 99; 100; 101].
-Lemma wrap_narrow_refuted_w :
+Lemma wrap_narrow_pinned_refuted_w :
   all_narrow (g_plain true []) w1_text = true /\
-  render_cursor_ok false (g_plain true []) 5 1 0 0 w1_text 5 (mkss 0 0 0) = false /\
-  render_cursor_ok true (g_plain true []) 5 1 0 0 w1_text 5 (mkss 0 0 0) = true.
+  render_cursor_ok_pinned (g_plain true []) 5 1 0 0 w1_text 5 (mkss 0 0 0) = false /\
+  render_cursor_ok (g_plain true []) 5 1 0 0 w1_text 5 (mkss 0 0 0) = true.
 Proof. vm_compute. repeat split. Qed.
 
 (* F13: 'ab\n' + '\x01'*6, 5x2; '\x01' has source width 0 and is drawn as ^A (2 cells) *)
@@ -86,12 +87,11 @@ Definition w13_tab : list (Z * (Z * Z * str)) := [(1, (0, 2, [94; 65]))].
 Definition w13_text : str := [97; 98; 10; 1; 1; 1; 1; 1; 1].
 Lemma wrap_control_refuted_w :
   has_control (g_plain true w13_tab) w13_text = true /\
-  render_cursor_ok false (g_plain true w13_tab) 5 2 0 0 w13_text 9 (mkss 0 0 0) = false /\
-  render_cursor_ok true (g_plain true w13_tab) 5 2 0 0 w13_text 9 (mkss 0 0 0) = false.
+  render_cursor_ok (g_plain true w13_tab) 5 2 0 0 w13_text 9 (mkss 0 0 0) = false.
 Proof. vm_compute. repeat split. Qed.
 
 Lemma nowrap_control_refuted_w :
-  render_cursor_ok false (g_plain false w13_tab) 5 2 0 0 [1; 1; 1; 1] 4 (mkss 0 0 0) = false.
+  render_cursor_ok (g_plain false w13_tab) 5 2 0 0 [1; 1; 1; 1] 4 (mkss 0 0 0) = false.
 Proof. vm_compute. reflexivity. Qed.
 
 (* F14: 'ab\ncd\n' + U+754C * 4 + 'z', 5x2 *)
@@ -99,13 +99,13 @@ Definition w14_tab : list (Z * (Z * Z * str)) := [(30028, (2, 2, [30028]))].
 Definition w14_text : str := [97; 98; 10; 99; 100; 10; 30028; 30028; 30028; 30028; 122].
 Lemma wrap_wide_refuted_w :
   has_wide (g_plain true w14_tab) w14_text = true /\ has_control (g_plain true w14_tab) w14_text = false /\
-  render_cursor_ok false (g_plain true w14_tab) 5 2 0 0 w14_text 11 (mkss 0 0 0) = false /\
-  render_cursor_ok true (g_plain true w14_tab) 5 2 0 0 w14_text 11 (mkss 0 0 0) = false.
+  render_cursor_ok (g_plain true w14_tab) 5 2 0 0 w14_text 11 (mkss 0 0 0) = false.
 Proof. vm_compute. repeat split. Qed.
 
 (* a narrow render where everything is fine (hypotheses are satisfiable) *)
 Lemma narrow_ok_example :
   all_narrow (g_plain true []) w1_text = true /\
-  render_cursor_ok false (g_plain true []) 5 2 0 0 w1_text 5 (mkss 0 0 0) = true /\
-  render_cursor_ok false (g_plain false []) 3 1 0 0 w1_text 5 (mkss 0 0 0) = true.
+  render_cursor_ok (g_plain true []) 5 1 0 0 w1_text 5 (mkss 0 0 0) = true /\
+  render_cursor_ok (g_plain true []) 5 2 0 0 w1_text 5 (mkss 0 0 0) = true /\
+  render_cursor_ok (g_plain false []) 3 1 0 0 w1_text 5 (mkss 0 0 0) = true.
 Proof. vm_compute. repeat split. Qed.
